@@ -2282,3 +2282,10 @@ M("C15-using-walk-forgets-where-it-has-been", "C15", F_SC,
 MUTANTS.append({"id": "C15-using-walk-does-not-stop-at-visited-scope", "prop": "C15", "expect": "R15.28|CPPScope::find_template/3|", "benign": False, "edits": [
     (F_SC, "find_template(const string &name, bool recurse, UsingVisited &visited) const {\n  if (!visited.insert(this).second) {\n    // This scope is already being searched, further up a chain of\n    // using-directives.\n    return nullptr;\n  }\n\n",
            "find_template(const string &name, bool recurse, UsingVisited &visited) const {\n")]})
+
+# ---- R15.30 (F-C15ab: a constant defined through itself)
+M("C15-variable-evaluated-without-in-progress-guard", "C15", F_EX,
+  "        if (!in_progress.insert(_u._variable).second) {\n          return Result();\n        }\n", "        in_progress.insert(_u._variable);\n",
+  expect="R15.30|evaluate|variable-initializer#0|")
+M("C15-variable-never-leaves-the-in-progress-set", "C15", F_EX,
+  "        in_progress.erase(_u._variable);\n", "", expect="R15.30|evaluate|variable-initializer#0|")
